@@ -2,6 +2,13 @@ import ComposeVerif.Ops.Common
 import ComposeVerif.Model.C01Stages
 import ComposeVerif.Model.C01Cycles
 import ComposeVerif.Model.C01Reset
+import ComposeVerif.Model.C01Unicity
+import ComposeVerif.Model.C01Pipeline
+import ComposeVerif.Model.C01Files
+import ComposeVerif.Gen.Tables
+import ComposeVerif.Model.Schema
+import ComposeVerif.Gen.Schema
+import ComposeVerif.Model.Unicity
 /-! line-protocol ops for C01: stage walkers, cycle tracker, extends / include / depends_on loops -/
 open Lean
 namespace CV.Ops.C01
@@ -233,7 +240,73 @@ def resetOp : Handler := fun args =>
   | .error .outOfFuel => Json.mkObj [("outOfFuel", true)]
   | .error .badIndex => bad "index"
 
-def handlers : List (String × Handler) := [("c01reset", resetOp),
+/-! ### the `seq` / `keys` loop of `enforceUnicity` on a list of `K=v` strings (keys as `keyValueIndexer` computes them) -/
+
+def unicityLoopOp : Handler := fun args =>
+  let entries := getStrList args "entries"
+  let kes : List (String × CV.Val) := entries.map fun s => (CV.Unicity.kvKey s, CV.Val.str s)
+  match CV.C01.Uniq.run kes with
+  | .ok seq => Json.mkObj [("ok", Json.arr (seq.map fun v => match v with | .str s => Json.str s | _ => Json.null).toArray)]
+  | .panic site => Json.mkObj [("panic", Json.str site)]
+
+/-! ### the composed stages (`Pipe.loadModel`): documents without extends / include, validation and interpolation off,
+paths not resolved, normalisation off; `SetDefaultValues` on or off; schema + `validation.Validate` on or off (the schema
+verdict is C01Schema's `conforms` on the regenerated schema); tables as regenerated (`CV.Gen`) -/
+
+def pipeOp : Handler := fun args =>
+  let docs := match getObj args "docs" with
+    | .arr a => a.toList.map goValOfJson
+    | _ => []
+  match docs.mapM id with
+  | .error e => bad e
+  | .ok raws =>
+    let look (l : List (String × String)) (s : String) : Option String :=
+      match l.find? (fun p => p.1 == s) with
+      | some p => some p.2
+      | none => none
+    let o : CV.C01.Pipe.Opts := { skipInterpolation := !(getBool args "interpolate"), skipValidation := !(getBool args "validate"), skipDefaultValues := getBool args "skip_defaults",
+                                  skipNormalization := !(getBool args "normalize"), resolvePaths := getBool args "resolve_paths" }
+    let P : CV.C01.Pipe.Params :=
+      { interp := { table := CV.Gen.castTable, fp := { f64 := look (getStrMap args "f64"), f32 := look (getStrMap args "f32") },
+                    env := envOfList (getStrMap args "env") },
+        omitPats := patsOf args
+        defaults := CV.Gen.defaultValues
+        paths := { wd := (getStr args "wd").toList, home := if getStr args "home" = "" then none else some (getStr args "home").toList }
+        clean := CV.C11.pathClean
+        env := []
+        projectName := "p"
+        schemaOK := fun v => CV.Schema.conforms CV.Gen.composeSchema v
+        extInc := fun v => .ok v
+        resolveEnv := id }
+    match CV.C01.Pipe.loadModel o P raws with
+    | .ok v => Json.mkObj [("ok", CV.Val.toJson v)]
+    | .err st => Json.mkObj [("err", st)]
+    | .panic site => Json.mkObj [("panic", site)]
+
+/-! ### env_file / label_file of one service on a disk given as path ↦ state -/
+
+open CV.C01.Files in
+def diskOf (j : Json) : String → Disk := fun p =>
+  match getStr j p with
+  | "absent" => .absent
+  | "parentIsFile" => .parentIsFile
+  | "directory" => .directory
+  | "unreadable" => .unreadable
+  | "badSyntax" => .file false
+  | "file" => .file true
+  | _ => .absent
+
+open CV.C01.Files in
+def filesOp : Handler := fun args =>
+  let fs := diskOf (getObj args "disk")
+  let envs : List EnvFile := match getObj args "env_files" with
+    | .arr a => a.toList.map fun e => { path := getStr e "path", required := getBool e "required" }
+    | _ => []
+  match resolveService fs (getBool args "skip_env") envs (getStrList args "label_files") with
+  | .ok l => Json.mkObj [("ok", Json.arr (l.map Json.str).toArray)]
+  | .err c p => Json.mkObj [("err", c), ("path", p)]
+
+def handlers : List (String × Handler) := [("c01reset", resetOp), ("c01files", filesOp), ("c01unicityLoop", unicityLoopOp), ("c01pipe", pipeOp),
   ("c01convert", convertOp), ("c01convertTop", convertTopOp), ("c01fixEmpty", fixEmptyOp), ("c01omitEmpty", omitEmptyOp),
   ("c01tracker", trackerOp), ("c01extends", extendsOp), ("c01include", includeOp), ("c01checkCycle", checkCycleOp)]
 
